@@ -509,6 +509,10 @@ impl C17 {
         let train = match kind {
             13 | 10 | 17 | 16 | 15 | 18 | 21 | 23 | 31 | 19 | 20 | 25 | 28 => Some(gen_set_speed_case(g, tier, false)),
             14 | 22 | 24 => Some(gen_slts_case(g, tier, false)),
+            // half of the Network instances are chain networks with the full link data
+            // (elevation / heading points with coordinates, catenary sections that may touch
+            // or have no extent, per-type speed sets) instead of a bare corridor
+            26 if g.bool(0.5) => Some(gen_set_speed_case(g, tier, false)),
             _ => None,
         };
         // a fifth of the train cases carry a default hybrid locomotive as well
@@ -712,7 +716,14 @@ impl C17 {
                     let dc = case.corridor.as_ref().unwrap();
                     let b = build(dc)?;
                     match case.kind {
-                        26 => simple!(if case.state == 0 { Network(vec![Link::default(), Link::valid_link()]) } else { Network(b.corridor.links.clone()) }),
+                        26 => simple!(if case.state == 0 {
+                            Network(vec![Link::default(), Link::valid_link()])
+                        } else if let Some(tc) = case.train.as_ref() {
+                            cx.label("network_with_full_link_data");
+                            Network(build_chain(&tc.links))
+                        } else {
+                            Network(b.corridor.links.clone())
+                        }),
                         27 => simple!(if case.state == 0 { Location::default() } else { b.slts[0].origs[0].clone() }),
                         _ => {
                             let est = match est_times_for(&b, 0) {
